@@ -16,6 +16,9 @@ class _Obj:
     def __bool__(s): return _TRUTH
     def __eq__(s, o): return True
     seq = (1, 2)
+    def __neg__(s): return _OBJ(('neg', s.k))
+    def __pos__(s): return _OBJ(('pos', s.k))
+    def __invert__(s): return _OBJ(('inv', s.k))
     __iter__ = None          # not iterable (a __getitem__ that accepts every index would iterate for ever)
 ''' + "".join(f"    def __{n}__(s, o): return _OBJ(('{n}', s.k))\n    def __r{n}__(s, o): return _OBJ(('r{n}', s.k))\n"
               for n in ['add', 'sub', 'mul', 'truediv', 'floordiv', 'mod', 'pow', 'lshift', 'rshift', 'and', 'or', 'xor', 'matmul']) + '''
@@ -157,7 +160,8 @@ class Gen:
 
 
 INDEX_SHAPES = ["{a}", "-1", "{a}:{b}", ":", "::{a}", "{a}:{b}:{c}", "{a}:{b},", ":,", "{a}:{b}, {c}", "{a}, {b}:{c}", "::{a}, ..., :{b}", "{a}, {b}", "({a}, {b})",
-                "({a},)", "{a},", "...", "..., {a}", "{a}:{b}, {c}:{d}", "None", "'k'", "{a}[{b}]", "{a}[{b}:{c}]", "*{a}.seq, {b}", "({a}, {b}):{c}", "{a} if {b} else {c}", "(yz_ := {a})"]
+                "({a},)", "{a},", "...", "..., {a}", "{a}:{b}, {c}:{d}", "None", "'k'", "{a}[{b}]", "{a}[{b}:{c}]", "*{a}.seq, {b}", "({a}, {b}):{c}", "{a} if {b} else {c}", "(yz_ := {a})",
+                "-{a}", "~{a}", "not {a}", "+{a}", "-{a}:~{b}", "-{a}, {b}", "-{a}[{b}]", "-({a} + {b})"]
 
 
 def index_programs(probe="__probe"):
